@@ -146,7 +146,7 @@ struct C09 : Prop {
 	void attach(Engine &e) override {
 		model = sm::Model(); model.init(cfg::from_json(e.plan["world"]));
 		wire_pos = frame_pos = 0; have_last = false; armed = false; held_by_budget = accepted = refused = relogin_cmds = manual_bits_used = state_checks = 0; relogged.clear(); manual_trains.clear();
-		on_wire = nullptr; conc_phases = conc_overlaps = conc_msgs = 0; fb_phases = fb_ambiguous = fb_budget_exhausted = fb_nodes = 0;
+		on_wire = nullptr; conc_phases = conc_overlaps = conc_msgs = 0; fb_phases = fb_ambiguous = fb_budget_exhausted = fb_nodes = 0; resync_trains = false;
 	}
 	void before_stop(Engine &, int) override { armed = false; }
 
@@ -430,7 +430,7 @@ struct C09 : Prop {
 	// (a) keeps the wire order, the frame order and each task's program order, (b) puts X before Y whenever X was over before Y began,
 	// (c) makes every wire message the expected message of its command on the state the order has produced so far, and (d) ends in the
 	// state bidib_get_state reports. None exists = a lost update (or a torn one) between a command and the receiver.
-	uint64_t fb_phases = 0, fb_ambiguous = 0, fb_budget_exhausted = 0, fb_nodes = 0;
+	uint64_t fb_phases = 0, fb_ambiguous = 0, fb_budget_exhausted = 0, fb_nodes = 0; bool resync_trains = false;
 	// (orientation: when the listings of a train disagree any reported one is acceptable)
 	static std::string diff_state(J got, const sm::Model &m) {
 		J want = m.to_json();
@@ -508,7 +508,9 @@ struct C09 : Prop {
 		dfs(0, 0, pos, 0, start);
 		fb_nodes += nodes;
 		if (ambiguous) fb_ambiguous++;
-		if (!ok && nodes > NODE_BUDGET) { fb_budget_exhausted++; return; }      // not judged (counted); the plain fold below still compares the final state
+		// search budget exhausted (many commands): not judged (counted). The plain fold by observed order is only one of the admissible orders, so
+		// the state comparison of this phase is skipped too and the model takes over what the library reports for the trains
+		if (!ok && nodes > NODE_BUDGET) { fb_budget_exhausted++; resync_trains = true; return; }
 		if (!ok) {
 			std::string d = "no single order of the " + std::to_string(ncmds) + " concurrent commands and the " + std::to_string(F.size()) + " uplink frames of the phase (manual drive reports, acknowledgements) that respects what was over before what explains both the downlink and the final state; deepest attempt: " + deepest_why;
 			e.violate("NOT_SERIALIZABLE", "concurrent train commands and drive reports", d);
@@ -522,6 +524,16 @@ struct C09 : Prop {
 		if (armed && e.plan["sessions"][(size_t) s]["phases"][(size_t) p].getb("conc_fb")) judge_concurrent_fb(e, s, p);
 		else if (armed && e.plan["sessions"][(size_t) s]["phases"][(size_t) p].getb("conc")) judge_concurrent(e, s, p);
 		ingest(e);
+		if (resync_trains) {
+			resync_trains = false;
+			J st = lib_state();
+			for (auto &kv : model.tr) if (st["trains"].has(kv.first)) {
+				const J &t = st["trains"][kv.first];
+				kv.second.speed = (int) t.geti("speed"); kv.second.fwd = t.getb("fwd"); kv.second.ack = (int) t.geti("ack");
+				for (size_t q = 0; q < t["periph"].size(); q++) kv.second.periph[t["periph"][q][0].str()] = (int) t["periph"][q][1].num();
+			}
+			return;
+		}
 		if (!e.plan["sessions"][(size_t) s]["phases"][(size_t) p].getb("check")) return;
 		J got = lib_state();
 		J want = model.to_json();
